@@ -4094,6 +4094,10 @@ class TLSConnection(TLSRecordLayer):
             try:
                 if ticket_ext:
                     session = self._ticket_to_session(settings, ticket_ext)
+                    # tickets don't carry the SRP identity, so they can't
+                    # be used to resume a SRP session, do a full handshake
+                    if session and clientHello.srp_username:
+                        session = None
                     # client MAY send a random session_id to easily tell
                     # if the session is resumed, for that server has to
                     # echo the session_ID back
